@@ -201,8 +201,9 @@ func (w *responseWriter) writeZip(
 			} else {
 				return err
 			}
+		} else {
+			return err
 		}
-		return err
 	} else if !fileInfo.IsDir() {
 		return fmt.Errorf("not a directory: %s", outDirPath)
 	}
